@@ -77,3 +77,13 @@ def bfs(ctx, evaluate, sources, depth_tiers, extra=None, args=(), on_result=None
         cov = ctx.cov.setdefault("per_depth", [])
         cov.append({"depth": d + 1, "tier": tier, "candidates": len(cands), "new_states": len(frontier)})
     return all_results
+
+
+def extra_stages(kind="full"):
+    """Plan stages that bring the tier-3 alphabet (expression classes with rules of their own that the tier<=2 pair space
+    never constructs) into a quick run without squaring it: every operation once on three tables (plain, datetime index,
+    type-rich columns), and every tier-3 operation paired with the CORE0 consumers / producers in both orders."""
+    depth1 = (["T:3", "Tt:3", "TX:3"], [3])
+    if kind == "full":
+        return [depth1, (["T:3"], ["=3", "core0"]), (["T:3"], ["core0", "=3"])]
+    return [depth1, (["T:3"], ["=3", "core0"])]
